@@ -17,7 +17,7 @@ pub fn def() -> PropDef {
         nontrivial,
         rule: "concurrent histories of from_registry, setup, register, replace, unregister, try_from_registry, already_running, stop of a known instance and self-termination (Context::stop, panic) issued by 1-4 clients (<= 6 registry ops each) on 1-2 service types; every returned address is identified by a call; x seeded schedules; the recorded history (invoke/return stamped with the global event number, instance deaths pinned at the simulator's task-done event) is checked for linearizability against a sequential registry model by depth-first search with memoisation, plus a count of default instances spawned vs. required by the witness; non-trivial = two registry operations overlapped in time, or a lookup followed a termination; distinct = distinct order of client-op and callback events",
         needed_probes: &["c08_linearized", "c08_concurrent_ops", "c08_lookup_after_death", "c08_respawn_seen", "c08_register_rejected"],
-        quick_runs: 100_000,
+        quick_runs: 200_000,
         thorough_runs: 2_000_000,
         block: 1,
         flavours: &["tokio"],
